@@ -17,6 +17,8 @@ use std::io::Write;
 pub const TYPES: &[&str] = &[
     "time", "aead", "vcommit", "write", "account", "file", "device", "record", "cproof", "cstate",
     "comparison", "vaultmeta", "secretmeta", "secret", "tagset", "evfile",
+    // protobuf wire types of the sync protocol (not modelled in Coq: round trip and mutation on the implementation only)
+    "wscanreq", "wscanres", "wdiffreq", "wdiffres", "wpatchreq", "wpatchres", "wstatus",
 ];
 
 fn gen_time(r: &mut Rng) -> UtcDateTime {
@@ -123,6 +125,96 @@ fn gen_comparison(r: &mut Rng) -> Comparison {
         1 => Comparison::Contains((0..r.below(4)).map(|_| r.below(1 << 40) as usize).collect()),
         _ => Comparison::Unknown,
     }
+}
+
+// ---- wire types (sos_protocol bindings over prost)
+fn gen_log_type(r: &mut Rng) -> sos_core::events::EventLogType {
+    use sos_core::events::EventLogType::*;
+    match r.below(5) {
+        0 => Identity,
+        1 => Account,
+        2 => Device,
+        3 => Files,
+        _ => Folder(gen_uuid(r)),
+    }
+}
+fn gen_hash(r: &mut Rng) -> CommitHash {
+    CommitHash(r.bytes(32).try_into().unwrap())
+}
+fn gen_records(r: &mut Rng) -> Vec<EventRecord> {
+    (0..r.below(4)).map(|_| gen_record(r)).collect()
+}
+fn gen_scan_req(r: &mut Rng) -> sos_protocol::ScanRequest {
+    let limit = *r.pick(&[0u16, 1, 255, 256, 257, u16::MAX]);
+    let offset = *r.pick(&[0u64, 1, 255, u32::MAX as u64, u64::MAX]);
+    sos_protocol::ScanRequest { log_type: gen_log_type(r), limit, offset }
+}
+fn gen_scan_res(r: &mut Rng) -> sos_protocol::ScanResponse {
+    sos_protocol::ScanResponse {
+        first_proof: if r.below(2) == 0 { None } else { Some(gen_cproof(r)) },
+        proofs: (0..r.below(4)).map(|_| gen_cproof(r)).collect(),
+        offset: *r.pick(&[0u64, 7, u64::MAX]),
+    }
+}
+fn gen_diff_req(r: &mut Rng) -> sos_protocol::DiffRequest {
+    sos_protocol::DiffRequest { log_type: gen_log_type(r), from_hash: if r.below(2) == 0 { None } else { Some(gen_hash(r)) } }
+}
+fn gen_diff_res(r: &mut Rng) -> sos_protocol::DiffResponse {
+    sos_protocol::DiffResponse { patch: gen_records(r), checkpoint: gen_cproof(r) }
+}
+fn gen_patch_req(r: &mut Rng) -> sos_protocol::PatchRequest {
+    sos_protocol::PatchRequest {
+        log_type: gen_log_type(r),
+        commit: if r.below(2) == 0 { None } else { Some(gen_hash(r)) },
+        proof: gen_cproof(r),
+        patch: gen_records(r),
+    }
+}
+fn gen_patch_res(r: &mut Rng) -> sos_protocol::PatchResponse {
+    use sos_core::events::patch::CheckedPatch;
+    let checked_patch = match r.below(3) {
+        0 => CheckedPatch::Success(gen_cproof(r)),
+        1 => CheckedPatch::Conflict { head: gen_cproof(r), contains: None },
+        _ => CheckedPatch::Conflict { head: gen_cproof(r), contains: Some(gen_cproof(r)) },
+    };
+    sos_protocol::PatchResponse { checked_patch }
+}
+fn gen_status(r: &mut Rng) -> sos_sync::SyncStatus {
+    let mut st = |r: &mut Rng| CommitState(gen_hash(r), gen_cproof(r));
+    let mut s = sos_sync::SyncStatus::default();
+    s.root = gen_hash(r);
+    s.identity = st(r);
+    s.account = st(r);
+    s.device = st(r);
+    s.files = if r.below(2) == 0 { None } else { Some(st(r)) };
+    for _ in 0..r.below(4) {
+        let id = gen_uuid(r);
+        let v = st(r);
+        s.folders.insert(id, v);
+    }
+    s
+}
+macro_rules! wroundtrip {
+    ($rt:expr, $v:expr, $t:ty) => {{
+        use sos_protocol::WireEncodeDecode;
+        let v = $v;
+        let bytes = $rt.block_on(v.clone().encode()).expect("wire encode");
+        let back: Result<$t, _> = $rt.block_on(<$t>::decode(std::io::Cursor::new(bytes.clone())));
+        let same = match back { Ok(b) => b == v, Err(_) => false };
+        (bytes, same)
+    }};
+}
+macro_rules! wredecode {
+    ($rt:expr, $bytes:expr, $t:ty) => {{
+        use sos_protocol::WireEncodeDecode;
+        match $rt.block_on(<$t>::decode(std::io::Cursor::new($bytes.to_vec()))) {
+            Ok(v) => match $rt.block_on(v.encode()) {
+                Ok(b) => format!("ok {}", hex::encode(b)),
+                Err(_) => "ok !reencode-failed".to_string(),
+            },
+            Err(_) => "err".to_string(),
+        }
+    }};
 }
 
 // ---- vault crate types (not modelled in Coq: explored through the round-trip oracle only)
@@ -372,6 +464,13 @@ pub fn gen(spec: &str, out: &mut impl Write) {
                 (bytes, same)
             }
             "secret" => roundtrip!(rt, gen_secret(&mut r), sos_vault::secret::Secret),
+            "wscanreq" => wroundtrip!(rt, gen_scan_req(&mut r), sos_protocol::ScanRequest),
+            "wscanres" => wroundtrip!(rt, gen_scan_res(&mut r), sos_protocol::ScanResponse),
+            "wdiffreq" => wroundtrip!(rt, gen_diff_req(&mut r), sos_protocol::DiffRequest),
+            "wdiffres" => wroundtrip!(rt, gen_diff_res(&mut r), sos_protocol::DiffResponse),
+            "wpatchreq" => wroundtrip!(rt, gen_patch_req(&mut r), sos_protocol::PatchRequest),
+            "wpatchres" => wroundtrip!(rt, gen_patch_res(&mut r), sos_protocol::PatchResponse),
+            "wstatus" => wroundtrip!(rt, gen_status(&mut r), sos_sync::SyncStatus),
             "evfile" => {
                 let n = 1 + r.below(4) as usize;
                 let evs: Vec<WriteEvent> = (0..n).map(|_| gen_write(&mut r)).collect();
@@ -428,6 +527,13 @@ pub fn decode_one(rt: &tokio::runtime::Runtime, ty: &str, bytes: &[u8]) -> Strin
         "secretmeta" => redecode!(rt, bytes, sos_vault::secret::SecretMeta),
         "secret" => redecode!(rt, bytes, sos_vault::secret::Secret),
         "evfile" => evfile_walk(rt, bytes),
+        "wscanreq" => wredecode!(rt, bytes, sos_protocol::ScanRequest),
+        "wscanres" => wredecode!(rt, bytes, sos_protocol::ScanResponse),
+        "wdiffreq" => wredecode!(rt, bytes, sos_protocol::DiffRequest),
+        "wdiffres" => wredecode!(rt, bytes, sos_protocol::DiffResponse),
+        "wpatchreq" => wredecode!(rt, bytes, sos_protocol::PatchRequest),
+        "wpatchres" => wredecode!(rt, bytes, sos_protocol::PatchResponse),
+        "wstatus" => wredecode!(rt, bytes, sos_sync::SyncStatus),
         "tagset" => match tags_from_bytes(bytes) {
             Some(mut tags) => {
                 tags.reverse();
@@ -454,8 +560,15 @@ pub fn run(text: &str, out: &mut impl Write) {
         writeln!(out, "{id} !begin").unwrap();
         out.flush().unwrap();
         let start = crate::alloc::window_start();
+        let panics_before = crate::util::PANICS.load(std::sync::atomic::Ordering::SeqCst);
         let res = guarded(|| decode_one(&rt, ty, &bytes));
         let (peak, maxreq) = crate::alloc::window_end(start);
+        let caught = crate::util::PANICS.load(std::sync::atomic::Ordering::SeqCst) - panics_before;
+        if caught > 0 && res.is_ok() {
+            // a panic the runtime caught (a blocking task): the caller saw an error, the decoder still panicked
+            let at = crate::util::LAST_PANIC.lock().map(|g| g.clone()).unwrap_or_default();
+            writeln!(out, "{id} !caught-panic n={caught} at={at}").unwrap();
+        }
         match res {
             Ok(s) => match s.split_once(" !!") {
                 // implementation-only details travel on their own line
